@@ -806,3 +806,288 @@ theorem read_eq_denote (s : Skeleton) (hwf : s.WF) (lines0 : List Str) (hl : lin
             hTno _ _ _ _ _ hmeta ts tb oh od
 
 end Reamber.Osu
+
+namespace Reamber.Osu
+
+/-! ### the converse direction -/
+
+theorem metaStep_samples_eq (m : Meta) (rest : List Str) :
+    metaStep m kSamples rest =
+      match mapE readSample (rest.filter (startsWith pSample)) with
+      | .ok ss => .ok { m with samples := ss }
+      | .error e => .error e := by
+  have hs : split1 ':' kSamples = (kSamples, none) := by decide +kernel
+  have hk : ∀ e ∈ modelKeyTable, kSamples ≠ e.1.toList := by decide +kernel
+  unfold metaStep
+  rw [if_neg (by decide +kernel), hs]
+  simp only [metaAssign_other m _ _ hk, if_true]
+  rw [if_neg (by decide +kernel)]
+  cases mapE readSample (rest.filter (startsWith pSample)) <;> rfl
+
+theorem readMeta_events_eq (m : Meta) (A B S : List Str) (bgl name : Str)
+    (hA : ∀ l ∈ A, Inert l) (hbg : BgOk bgl name) (hB : ∀ l ∈ B, Inert l) (hS : ∀ l ∈ S, l = [] ∨ SampleOk l) :
+    readMeta m (A ++ kBackground :: bgl :: (B ++ kSamples :: S)) =
+      match mapE readSample (S.filter (startsWith pSample)) with
+      | .ok ss => .ok { m with backgroundFileName := name, samples := ss }
+      | .error e => .error e := by
+  cases hss : mapE readSample (S.filter (startsWith pSample)) with
+  | ok ss => exact readMeta_events m A B S bgl name ss hA hbg hB hS hss
+  | error e =>
+    obtain ⟨t, hbt⟩ := bgOk_head bgl name hbg
+    rw [readMeta_inert_block m A _ hA]
+    rw [readMeta_step _ _ _ _ (metaStep_background _ _ _)]
+    rw [readMeta_step _ _ _ _ (metaStep_inert _ bgl _ (by rw [hbt]; exact inert_of_head0 t))]
+    rw [readMeta_inert_block _ B _ hB]
+    rw [readMeta, metaStep_samples_eq, hss]
+
+theorem read_sections_eq (lines0 H T O : List Str)
+    (hl : lines0.map strip = H ++ hTiming :: (T ++ hObjects :: O))
+    (hT : hTiming ∉ H) (hO : hObjects ∉ H) (hO' : hObjects ∉ T) :
+    read lines0 =
+      match readMeta {} H with
+      | .error e => .error e
+      | .ok md =>
+        match mapE readSv (T.filter isSliderVelocity) with
+        | .error e => .error e
+        | .ok svs =>
+          match mapE readBpm (T.filter isTimingPoint) with
+          | .error e => .error e
+          | .ok bpms =>
+            match mapE (fun s => readHit s (pyTrunc md.circleSize)) (O.filter isHit) with
+            | .error e => .error e
+            | .ok hits =>
+              match mapE (fun s => readHold s (pyTrunc md.circleSize)) (O.filter isHold) with
+              | .error e => .error e
+              | .ok holds => .ok { md := md, bpms := bpms, svs := svs, hits := hits, holds := holds } := by
+  have i1 : indexOf? hTiming (lines0.map strip) = some H.length := by
+    rw [hl]; exact indexOf?_append hTiming H _ hT
+  have i2 : indexOf? hObjects (lines0.map strip) = some (H.length + 1 + T.length) := by
+    have e : H ++ hTiming :: (T ++ hObjects :: O) = (H ++ hTiming :: T) ++ hObjects :: O := by simp
+    rw [hl, e, indexOf?_append hObjects (H ++ hTiming :: T) O]
+    · simp; omega
+    · simp only [List.mem_append, List.mem_cons, not_or]
+      exact ⟨hO, by decide +kernel, hO'⟩
+  have t1 : (lines0.map strip).take H.length = H := by
+    rw [hl]; exact List.take_left' rfl
+  have t2 : ((lines0.map strip).take (H.length + 1 + T.length)).drop (H.length + 1) = T := by
+    have e : H ++ hTiming :: (T ++ hObjects :: O) = ((H ++ [hTiming]) ++ T) ++ hObjects :: O := by simp
+    rw [hl, e, List.take_left' (by simp; omega), List.drop_left' (by simp)]
+  have t3 : (lines0.map strip).drop (H.length + 1 + T.length + 1) = O := by
+    have e : H ++ hTiming :: (T ++ hObjects :: O) = (((H ++ [hTiming]) ++ T) ++ [hObjects]) ++ O := by simp
+    rw [hl, e, List.drop_left' (by simp; omega)]
+  unfold read
+  simp only [i1, i2, t1, t2, t3]
+  cases readMeta {} H with
+  | error e => rfl
+  | ok md =>
+    cases mapE readSv (T.filter isSliderVelocity) with
+    | error e => rfl
+    | ok svs =>
+      cases mapE readBpm (T.filter isTimingPoint) with
+      | error e => rfl
+      | ok bpms =>
+        cases mapE (fun s => readHit s (pyTrunc md.circleSize)) (O.filter isHit) with
+        | error e => rfl
+        | ok hits =>
+          cases mapE (fun s => readHold s (pyTrunc md.circleSize)) (O.filter isHold) <;> rfl
+
+end Reamber.Osu
+
+namespace Reamber.Osu
+
+/-- what the by-the-book denotation computes on a skeleton -/
+theorem Skeleton.denote_eq (s : Skeleton) (hwf : s.WF) (lines0 : List Str) (hl : lines0.map strip = s.lines) :
+    denote lines0 =
+      match denoteKv {} (((s.G ++ s.E) ++ s.M) ++ s.D) with
+      | .error e => .error e
+      | .ok m0 =>
+        match mapE readSample (s.S.filter (startsWith pSample)) with
+        | .error e => .error e
+        | .ok ss =>
+          match filterMapE denoteTiming (s.T.filter nb) with
+          | .error e => .error e
+          | .ok tps =>
+            match filterMapE (denoteObj (pyTrunc m0.circleSize)) (s.O.filter nb) with
+            | .error e => .error e
+            | .ok objs =>
+              .ok { md := { m0 with samples := ss, backgroundFileName := s.bgName }, bpms := tps.filterMap tpBpm,
+                    svs := tps.filterMap tpSv, hits := objs.filterMap objHit, holds := objs.filterMap objHold } := by
+  obtain ⟨bG, bE, bM, bD, bEv, bT, bO⟩ := s.bodies hwf
+  obtain ⟨evS, evB⟩ := s.events_denote hwf
+  unfold denote
+  simp only [hl, s.sections_eq hwf, bG, bE, bM, bD, bEv, bT, bO]
+  have hkv : denoteKv {} (s.G.filter nb ++ s.E.filter nb ++ s.M.filter nb ++ s.D.filter nb) =
+      denoteKv {} (((s.G ++ s.E) ++ s.M) ++ s.D) := by
+    rw [← List.filter_append, ← List.filter_append, ← List.filter_append, denoteKv_filter_nonblank]
+  have hTc : (s.T.filter nb).filter nc = s.T.filter nb := by
+    apply filter_eq_self'
+    intro l hl'
+    have hne : l ≠ [] := by simpa [nb] using (List.mem_filter.mp hl').2
+    rcases hwf.T l (List.mem_of_mem_filter hl') with h | h
+    · exact absurd h hne
+    · simp [nc, h.2.2]
+  have hOc : (s.O.filter nb).filter nc = s.O.filter nb := by
+    apply filter_eq_self'
+    intro l hl'
+    have hne : l ≠ [] := by simpa [nb] using (List.mem_filter.mp hl').2
+    rcases hwf.O l (List.mem_of_mem_filter hl') with h | h
+    · exact absurd h hne
+    · simp [nc, h.2.2]
+  rw [hkv, evS, evB, hTc, hOc]
+  cases denoteKv {} (((s.G ++ s.E) ++ s.M) ++ s.D) with
+  | error e => rfl
+  | ok m0 =>
+    cases mapE readSample (s.S.filter (startsWith pSample)) with
+    | error e => rfl
+    | ok ss =>
+      simp only [Option.getD_some]
+      cases filterMapE denoteTiming (s.T.filter nb) with
+      | error e => rfl
+      | ok tps =>
+        cases filterMapE (denoteObj (pyTrunc m0.circleSize)) (s.O.filter nb) <;> rfl
+
+theorem filter_nb_comm (X : List Str) (f : Str → Bool) (hf : f [] = false) : (X.filter nb).filter f = X.filter f := by
+  rw [List.filter_filter]; congr 1; funext l
+  by_cases hl' : l = []
+  · subst hl'; simp [hf]
+  · simp [nb, hl']
+
+theorem Skeleton.head_no_headers (s : Skeleton) (hwf : s.WF) :
+    hTiming ∉ s.head ∧ hObjects ∉ s.head ∧ hObjects ∉ s.T := by
+  have hHead : ∀ l ∈ s.head, l ≠ hTiming ∧ l ≠ hObjects := by
+    intro l hl'
+    have hbgl : isHeader s.bgl = false := by
+      obtain ⟨t, ht⟩ := bgOk_head _ _ hwf.bg
+      unfold isHeader; rw [ht]; rfl
+    unfold Skeleton.head Skeleton.events at hl'
+    simp only [List.mem_append, List.mem_cons] at hl'
+    have kvh : ∀ X : List Str, (∀ l ∈ X, KvOk l) → l ∈ X → l ≠ hTiming ∧ l ≠ hObjects :=
+      fun X hX hm => not_header_ne l (hX l hm).1
+    rcases hl' with h | rfl | h | h | rfl | h | rfl | h | rfl | h | rfl | rfl | h | rfl | h
+    · exact not_header_ne l (hwf.pre l h).2
+    · decide +kernel
+    · exact kvh _ hwf.G h
+    · cases hb : s.hasEditor
+      · rw [hb] at h; simp at h
+      · rw [hb] at h
+        simp only [if_true, List.mem_cons] at h
+        rcases h with rfl | h
+        · decide +kernel
+        · exact kvh _ hwf.E h
+    · decide +kernel
+    · exact kvh _ hwf.M h
+    · decide +kernel
+    · exact kvh _ hwf.D h
+    · decide +kernel
+    · exact not_header_ne l (hwf.A l h).2.1
+    · decide +kernel
+    · exact not_header_ne _ hbgl
+    · exact not_header_ne l (hwf.B l h).2.1
+    · decide +kernel
+    · rcases hwf.S l h with rfl | hs
+      · decide +kernel
+      · exact not_header_ne l (sampleOk_facts l hs).2.2.2
+  refine ⟨fun hm => (hHead _ hm).1 rfl, fun hm => (hHead _ hm).2 rfl, ?_⟩
+  intro hm
+  rcases hwf.T _ hm with h | h
+  · revert h; decide +kernel
+  · have := h.2.1; revert this; decide +kernel
+
+/-- what the reader as written computes on a skeleton -/
+theorem Skeleton.read_eq (s : Skeleton) (hwf : s.WF) (lines0 : List Str) (hl : lines0.map strip = s.lines) :
+    read lines0 =
+      match denoteKv {} (((s.G ++ s.E) ++ s.M) ++ s.D) with
+      | .error e => .error e
+      | .ok m0 =>
+        match mapE readSample (s.S.filter (startsWith pSample)) with
+        | .error e => .error e
+        | .ok ss =>
+          match mapE readSv ((s.T.filter nb).filter isSliderVelocity) with
+          | .error e => .error e
+          | .ok svs =>
+            match mapE readBpm ((s.T.filter nb).filter isTimingPoint) with
+            | .error e => .error e
+            | .ok bpms =>
+              match mapE (fun l => readHit l (pyTrunc m0.circleSize)) ((s.O.filter nb).filter isHit) with
+              | .error e => .error e
+              | .ok hits =>
+                match mapE (fun l => readHold l (pyTrunc m0.circleSize)) ((s.O.filter nb).filter isHold) with
+                | .error e => .error e
+                | .ok holds =>
+                  .ok { md := { m0 with backgroundFileName := s.bgName, samples := ss }, bpms := bpms, svs := svs,
+                        hits := hits, holds := holds } := by
+  obtain ⟨n1, n2, n3⟩ := s.head_no_headers hwf
+  rw [read_sections_eq lines0 s.head s.T s.O hl n1 n2 n3, s.readMeta_head hwf]
+  rw [filter_nb_comm s.T isSliderVelocity rfl, filter_nb_comm s.T isTimingPoint rfl, filter_nb_comm s.O isHit rfl,
+    filter_nb_comm s.O isHold rfl]
+  cases denoteKv {} (((s.G ++ s.E) ++ s.M) ++ s.D) with
+  | error e => rfl
+  | ok m0 =>
+    simp only []
+    rw [show s.events = s.A ++ kBackground :: s.bgl :: (s.B ++ kSamples :: s.S) from rfl,
+      readMeta_events_eq m0 s.A s.B s.S s.bgl s.bgName (evInert_inert hwf.A) hwf.bg (evInert_inert hwf.B) hwf.S]
+    cases mapE readSample (s.S.filter (startsWith pSample)) with
+    | error e => rfl
+    | ok ss => simp only []
+
+end Reamber.Osu
+
+namespace Reamber.Osu
+
+theorem Skeleton.wf_lines (s : Skeleton) (hwf : s.WF) :
+    (∀ l ∈ s.T.filter nb, wfTimingLine l = true) ∧ (∀ l ∈ s.O.filter nb, wfObjLine l = true) := by
+  constructor
+  · intro l hl'
+    have hne : l ≠ [] := by simpa [nb] using (List.mem_filter.mp hl').2
+    rcases hwf.T l (List.mem_of_mem_filter hl') with h | h
+    · exact absurd h hne
+    · exact h.1
+  · intro l hl'
+    have hne : l ≠ [] := by simpa [nb] using (List.mem_filter.mp hl').2
+    rcases hwf.O l (List.mem_of_mem_filter hl') with h | h
+    · exact absurd h hne
+    · exact h.1
+
+/-- the converse of `read_eq_denote`: what the reader as written accepts on the dialect, the format accepts, with the
+same chart -/
+theorem denote_eq_read (s : Skeleton) (hwf : s.WF) (lines0 : List Str) (hl : lines0.map strip = s.lines) (c : Chart)
+    (hread : read lines0 = .ok c) (hk : 1 ≤ pyTrunc c.md.circleSize) : denote lines0 = .ok c := by
+  obtain ⟨hTwf, hOwf⟩ := s.wf_lines hwf
+  rw [s.read_eq hwf lines0 hl] at hread
+  rw [s.denote_eq hwf lines0 hl]
+  cases h0 : denoteKv {} (((s.G ++ s.E) ++ s.M) ++ s.D) with
+  | error e => rw [h0] at hread; simp at hread
+  | ok m0 =>
+    rw [h0] at hread; simp only [] at hread
+    cases hss : mapE readSample (s.S.filter (startsWith pSample)) with
+    | error e => rw [hss] at hread; simp at hread
+    | ok ss =>
+      rw [hss] at hread; simp only [] at hread
+      cases h1 : mapE readSv ((s.T.filter nb).filter isSliderVelocity) with
+      | error e => rw [h1] at hread; simp at hread
+      | ok svs =>
+        rw [h1] at hread; simp only [] at hread
+        cases h2 : mapE readBpm ((s.T.filter nb).filter isTimingPoint) with
+        | error e => rw [h2] at hread; simp at hread
+        | ok bpms =>
+          rw [h2] at hread; simp only [] at hread
+          cases h3 : mapE (fun l => readHit l (pyTrunc m0.circleSize)) ((s.O.filter nb).filter isHit) with
+          | error e => rw [h3] at hread; simp at hread
+          | ok hits =>
+            rw [h3] at hread; simp only [] at hread
+            cases h4 : mapE (fun l => readHold l (pyTrunc m0.circleSize)) ((s.O.filter nb).filter isHold) with
+            | error e => rw [h4] at hread; simp at hread
+            | ok holds =>
+              rw [h4] at hread
+              simp only [Except.ok.injEq] at hread
+              subst hread
+              obtain ⟨tps, t1, t2, t3⟩ := timing_section_denote_of_read _ hTwf bpms svs h2 h1
+              obtain ⟨objs, o1, o2, o3⟩ := objects_section_denote_of_read (pyTrunc m0.circleSize) hk _ hOwf hits holds h3 h4
+              simp only [t1, o1, t2, t3, o2, o3]
+
+/-- **on the dialect the reader as written and the format agree exactly** (charts with a key count ≥ 1) -/
+theorem read_iff_denote (s : Skeleton) (hwf : s.WF) (lines0 : List Str) (hl : lines0.map strip = s.lines) (c : Chart)
+    (hk : 1 ≤ pyTrunc c.md.circleSize) : read lines0 = .ok c ↔ denote lines0 = .ok c :=
+  ⟨fun h => denote_eq_read s hwf lines0 hl c h hk, fun h => read_eq_denote s hwf lines0 hl c h hk⟩
+
+end Reamber.Osu
